@@ -30,6 +30,8 @@ EXPLANATION = (
     "the components that call set_fixed_node_entries(..., 'p') on the solver side (computed), with the same row "
     "filter (in service; type contains 'p' where the solver filters by type). (R18.5) the default pipe weight reads "
     "length_km and closed pipe valves clear their pipe's edge only under respect_status_valves. Not decided: equality "
+    "(R18.6) every function of graph_searches that runs a weighted shortest-path search on a graph it builds itself builds a "
+    "MultiGraph. Not decided: equality "
     "of connected components with the solver's islands for a concrete network (runtime).")
 ASSUMPTIONS = ["pandapower's get_edge_table / add_edges add one edge per in-service row between indices[:, 1] and indices[:, 2]"]
 TECHNIQUE = "signature/table agreement, keyword-construction check, solver-side slot filling from component hooks"
@@ -357,4 +359,32 @@ def strip_values(t):
     return t
 
 
-RULES = [("R18.1", r18_1), ("R18.2", r18_2), ("R18.3", r18_3), ("R18.5", r18_5)]
+def r18_6(run):
+    """a weighted search needs the MultiGraph: in a simple nx.Graph parallel branches between the same two junctions collapse into
+    one edge that keeps the weight of the branch added last, so path lengths are no longer shortest-path sums of pipe lengths"""
+    ix = run.index
+    cg = ix.func(CG + ".create_nxgraph")
+    n = 0
+    for f in ix.module(GS).functions.values():
+        r = ANF(ix, f).run()
+        graphs = [c for c in r.calls() if c.fn == ("f", cg.qualname)]
+        if not graphs:
+            continue
+        weighted = [c for c in r.calls() if c.fn[0] == "x" and any(s_ in c.fn[1] for s_ in ("dijkstra", "bellman_ford", "shortest_path", "astar"))
+                    and dict(c.kw).get("weight", C("weight")) != C(None)]        # networkx searches weight by the edge key "weight" by default
+        if not weighted:
+            continue
+        run.analysed(f)
+        for gcall in graphs:
+            n += 1
+            a_ = dict(zip(cg.params(), gcall.args))
+            a_.update(dict(gcall.kw))
+            m = a_.get("multi", C(True))
+            run.ob("%s|weighted-search-on-multigraph" % f.name, m == C(True),
+                   "%s searches weighted paths on a MultiGraph (parallel branches keep their own weights)" % f.name,
+                   run.where(f, gcall.node), detail="multi=%s" % show(m))
+    run.ob("weighted-searches-found", n >= 3, "weighted searches that build their own graph: %d" % n, GS)
+    run.floor(3)
+
+
+RULES = [("R18.6", r18_6), ("R18.1", r18_1), ("R18.2", r18_2), ("R18.3", r18_3), ("R18.5", r18_5)]
